@@ -102,14 +102,18 @@ def r14_2(ctx):
                       "the two-half-step state; compute_error is the clamped mixed-tolerance RMS of the difference")
     fi, while_node, ad = _adaptive_nodes(model)
     ct, cy, ce = ik.H("curr_t"), ik.H("curr_y", False), ik.H("curr_extra", False)
-    nt = nf.fn("min", *sorted([ct + ik.H("step_size"), nf.sym("ts[-1]", True)], key=lambda v: repr(v.key())))
-    mid = (ct + nt) * Fraction(1, 2)
-    full = nf.fn("STEP_Y", ct, nt, cy, ce)
-    half1_y, half1_e = nf.fn("STEP_Y", ct, mid, cy, ce), nf.fn("STEP_E", ct, mid, cy, ce)
-    half2 = nf.fn("STEP_Y", mid, nt, half1_y, half1_e)
-    half2_e = nf.fn("STEP_E", mid, nt, half1_y, half1_e)
     for p in _paths(ctx, True):
         base = f"{fi.key}::R14.2::{p.label()}"
+        nt = ik.trial_end(p)             # min(curr_t + step_size, ts[-1]) or ts[-1] (R12.2 decides admissibility)
+        if nt is None:
+            rep.fail("R14.2", astq.loc(fi, ad), f"{base}::trial-interval",
+                     "no step of the iteration starts at curr_t and ends at min(curr_t + step_size, ts[-1])")
+            continue
+        mid = (ct + nt) * Fraction(1, 2)
+        full = nf.fn("STEP_Y", ct, nt, cy, ce)
+        half1_y, half1_e = nf.fn("STEP_Y", ct, mid, cy, ce), nf.fn("STEP_E", ct, mid, cy, ce)
+        half2 = nf.fn("STEP_Y", mid, nt, half1_y, half1_e)
+        half2_e = nf.fn("STEP_E", mid, nt, half1_y, half1_e)
         ces = p.extras["compute_error"]
         if len(ces) != 1:
             rep.fail("R14.2", astq.loc(fi, ad), f"{base}::one-estimate",
